@@ -159,11 +159,17 @@ def _trim_count(prog, c, fn, rz, names):
     req = reqs[-1] if reqs else "samples"
     trims = []
 
+    def conj(t, truth):
+        """a conjunction that holds gives each of its conjuncts; a disjunction that fails gives the negation of each"""
+        if isinstance(t, ast.BoolOp) and ((isinstance(t.op, ast.And) and truth) or (isinstance(t.op, ast.Or) and not truth)):
+            return [x for v in t.values for x in conj(v, truth)]
+        return [(t, truth)]
+
     def visit(stmts, conds):
         for st in stmts:
             if isinstance(st, ast.If):
-                visit(st.body, conds + [(st.test, True)])
-                visit(st.orelse, conds + [(st.test, False)])
+                visit(st.body, conds + conj(st.test, True))
+                visit(st.orelse, conds + conj(st.test, False))
             elif isinstance(st, ast.Assign) and len(st.targets) == 1 and isinstance(st.targets[0], ast.Name) and st.targets[0].id == pname:
                 t = rz.term(st.value, st, keep=names)
                 b = None
